@@ -34,6 +34,7 @@ static int nsgroup;
 static long spin_releases[SIMK_MAXT];
 /* a delivery whose handler has been entered but has not yet walked the process-wide tree */
 static struct { int sig, stage; uint64_t seq; } pend_deliv[SIMK_MAXT];
+static int pend_unreg[SIMK_MAXT];	/* interest obj + 1 whose unregister call has not yet entered its critical section */
 
 static void h_signal(void *ck) { generic_cb(ck, K_SIGNAL, 0, 0, 0); }
 
@@ -124,15 +125,14 @@ static int signal_unreg(struct rthr *th, int id)
 	const struct pobj *po = &PL->obj[id];
 	int i, g;
 
-	/* every other interest of the same signal and scope may receive a hand-off from this call */
-	for (i = 0; i < PL->nobj; i++)
-		if (i != id && PL->obj[i].kind == K_SIGNAL && PL->obj[i].p[0] == po->p[0] && scope_of(i) == scope_of(id) &&
-		    (RO[i].registered || RO[i].xi[SX_INPROG]))
-			RO[i].xi[SX_WAKES]++;
+	/* every other interest of the same signal and scope that is in the tree when this call's
+	 * critical section runs may receive a hand-off from it (counted in obs_lock_event) */
+	pend_unreg[th->sim] = id + 1;
 	o->xi[SX_REL0] = spin_releases[th->sim];
 	o->registered = 0;
 	o->xi[SX_INPROG] = 2;
 	iv_signal_unregister(o->mem);
+	pend_unreg[th->sim] = 0;
 	o->xi[SX_INPROG] = 0;
 	o->gen++;
 	obj_free_mem(id);
@@ -230,6 +230,13 @@ static void obs_lock_event(int tid, void *addr, int acquired, int spin)
 	if (pend_deliv[tid].stage == 1) {
 		pend_deliv[tid].stage = 2;
 		sig_walk(pend_deliv[tid].sig, -1, pend_deliv[tid].seq);
+	} else if (pend_deliv[tid].stage == 0 && pend_unreg[tid]) {
+		int id = pend_unreg[tid] - 1, i;
+		pend_unreg[tid] = 0;
+		for (i = 0; i < PL->nobj; i++)
+			if (i != id && PL->obj[i].kind == K_SIGNAL && PL->obj[i].p[0] == PL->obj[id].p[0] &&
+			    scope_of(i) == scope_of(id) && sig_in_tree(i))
+				RO[i].xi[SX_WAKES]++;
 	}
 }
 
@@ -418,6 +425,7 @@ void ext_run_begin(void)
 	nsgroup = 0;
 	memset(spin_releases, 0, sizeof(spin_releases));
 	memset(pend_deliv, 0, sizeof(pend_deliv));
+	memset(pend_unreg, 0, sizeof(pend_unreg));
 	for (i = 0; i < PL->nobj; i++)
 		if (PL->obj[i].kind == K_RAW && PL->obj[i].p[1] > 0 && PL->obj[i].p[1] <= 64)
 			simk_harness_sigaction((int)PL->obj[i].p[1], hsig);
